@@ -21,6 +21,14 @@ REDUCED = ["KeywordLet", "KeywordRes", "IdentifierValue", "OperatorEqual", "Cont
            "AnnotationInline", "Space"]
 
 
+# expression-level alphabets: sequences over them are enumerated inside `let a = ... ;` and `res ... ;`
+EXPR_SMALL = ["IdentifierValue", "PrimitiveNum", "PathElementRoot", "PathElementSegment", "ControlBraceLeft", "ControlBraceRight", "Property",
+              "OperatorQuestionMark", "ControlComma", "ControlChevronLeft", "ControlChevronRight", "OperatorVerticalBar", "OperatorArrow", "MethodGet"]
+EXPR_LARGE = EXPR_SMALL + ["ControlParenLeft", "ControlParenRight", "ControlBracketLeft", "ControlBracketRight", "OperatorColon", "OperatorDoubleColon",
+                           "OperatorAmpersand", "OperatorExclamationMark", "IdentifierReference", "LiteralString", "KeywordOn", "ContentStatus", "OperatorEqual"]
+CONTEXTS = [(["KeywordLet", "IdentifierValue", "OperatorEqual"], ["ControlSemicolon"]), (["KeywordRes"], ["ControlSemicolon"])]
+
+
 def seqs_upto(alphabet, n):
     for k in range(n + 1):
         for s in itertools.product(alphabet, repeat=k):
